@@ -133,7 +133,46 @@ def cmd_run(name, tier='quick'):
   save(name, m)
 
 
+def cmd_table():
+  rows = []
+  base = os.path.join(HERE, 'seeded')
+  for name in sorted(os.listdir(base)):
+    mp = os.path.join(base, name, 'meta.json')
+    if not os.path.exists(mp):
+      continue
+    m = load(name)
+    conf = m.get('confirmed') or {}
+    first = m['runs'][0] if m['runs'] else None
+    last = m['runs'][-1] if m['runs'] else None
+
+    def fmt(run):
+      if not run:
+        return '-'
+      return '; '.join('%s %s: %s' % (p, v['tier'],
+                                       ('caught by ' + ', '.join(v['monitors'][:3]))
+                                       if v['exit'] == 1 else 'exit %s' % v['exit'])
+                       for p, v in run['results'].items())
+    rows.append('| `%s` | %s | %s | %s | %s |' % (
+        name, ','.join(m['property']),
+        'yes' if conf.get('ok') else ('pending' if not conf else 'NO'),
+        fmt(first), fmt(last) if last is not first else 'same'))
+  out = ['# Independently seeded changes', '',
+         'Each directory holds `patch.diff` (apply with `git -C /repo apply`), '
+         '`demo.py` (fails with the patch, passes without), the author\'s '
+         '`NOTES.md` and `meta.json` (what it needs to manifest, my '
+         'confirmation run, and every evaluation of the checks against it). '
+         'Authors were sub-agents that saw only the property text and a '
+         'scratch worktree.', '',
+         '| change | property | confirmed (demo both ways, 875 baseline tests '
+         'pass) | first evaluation | latest evaluation |',
+         '|---|---|---|---|---|'] + rows
+  with open(os.path.join(base, 'README.md'), 'w') as f:
+    f.write('\n'.join(out) + '\n')
+  print('\n'.join(out))
+
+
 if __name__ == '__main__':
   c = sys.argv[1]
-  {'import': cmd_import, 'confirm': cmd_confirm, 'run': cmd_run}[c](
+  {'import': cmd_import, 'confirm': cmd_confirm, 'run': cmd_run,
+   'table': cmd_table}[c](
       *sys.argv[2:])
